@@ -175,6 +175,29 @@ func main() {
 			cases = append(cases, c)
 		}
 	}
+	// repeated runs on one Modules value: the caller has processed before, and may have cleared the
+	// entry cache, read trees (lazy rebuild, lazily created rpc input/output), looked modules up with
+	// GetModule, or changed the options; the LAST Process run gets the oracle and the model comparison
+	runKinds := []string{"pp", "pcp", "prp", "pctp", "pop", "pgp"}
+	nRuns := n / 4
+	for i := 0; i < nRuns; i++ {
+		r := f.Rand(3000003 + i)
+		set := gen.Generate(r, cfg)
+		if i%4 == 0 {
+			gen.AddLateAugments(r, set)
+		}
+		names, texts := set.Files()
+		c := rescorr.Case{Names: names, Texts: texts, Extra: map[string]string{"label": "runs"}}
+		if i%5 == 4 {
+			if pc, ok := pathCase(r, set, names, texts); ok {
+				c = pc
+			}
+		}
+		c.IgnoreNotSupported = r.Intn(4) == 0
+		c.IgnoreCircular = r.Intn(8) == 0
+		c.Extra["runs"] = runKinds[i%len(runKinds)]
+		cases = append(cases, c)
+	}
 	cases = append(corpusCases(), cases...)
 	nCorpus := len(corpusCases())
 	outs := rescorr.RunAll(cases, f)
@@ -239,6 +262,9 @@ func main() {
 			if o.Case.Extra["label"] == "late" || o.Case.Extra["label"] == "corpus" {
 				res.Count("clean_sets_with_late_augments", 1)
 			}
+			if k := o.Case.Extra["runs"]; k != "" {
+				res.Count("clean_last_runs_of_a_sequence:"+k, 1)
+			}
 			if rescorr.FromPath(o.Case) {
 				res.Count("clean_sets_with_modules_loaded_by_Process_from_the_path", 1)
 				if len(o.Go.Extra["loaded"]) > len(strings.Split(o.Case.Extra["roots"], ",")) {
@@ -253,7 +279,7 @@ func main() {
 	res.Evaluations = int64(len(cases))
 	_ = nCorpus
 	res.DistinctNontrivial = distinct.Len()
-	res.Rule = "seeded grammar-directed module sets (harness/gen: 1-3 modules, submodules with nested includes, groupings/uses, choices, rpc/action, notifications, augments, deviations, tiny name pools, deliberate faults at a low rate; plus n/4 sets with late augments added by gen.AddLateAugments - target through or at an implied case, body with short-hand choice members, written in owner / submodule / importer - and a fixed corpus of such sets; plus n/4 sets in the files-on-disk variant: only the root modules (nobody imports them), a random subset, or one module are handed to Parse, the rest lies on the search path and is loaded by Process, the oracle walks every module that ended up loaded and the model is asked with exactly the loaded texts); distinct_nontrivial = distinct sets (by text) on which Process reports no errors, i.e. where the tree invariant is actually checked"
+	res.Rule = "seeded grammar-directed module sets (harness/gen: 1-3 modules, submodules with nested includes, groupings/uses, choices, rpc/action, notifications, augments, deviations, tiny name pools, deliberate faults at a low rate; plus n/4 sets with late augments added by gen.AddLateAugments - target through or at an implied case, body with short-hand choice members, written in owner / submodule / importer - and a fixed corpus of such sets; plus n/4 sets in the files-on-disk variant: only the root modules (nobody imports them), a random subset, or one module are handed to Parse, the rest lies on the search path and is loaded by Process, the oracle walks every module that ended up loaded and the model is asked with exactly the loaded texts; plus n/4 sets where the checked Process run is the last of a sequence on one Modules value: Process twice / ClearEntryCache in between / reads with lazy input-output creation in between / cleared cache and lazy rebuild by ToEntry in between / opposite ParseOptions and AddPath before / GetModule in between); distinct_nontrivial = distinct sets (by text) on which Process reports no errors, i.e. where the tree invariant is actually checked"
 	res.Distribution["clean_sets"] = clean
 	res.Distribution["sets_with_errors"] = withErr
 	res.Distribution["sets_with_late_errors(merge/deviation)"] = late
@@ -356,7 +382,30 @@ func corpusCases() []rescorr.Case {
 		c.Extra = map[string]string{"label": "corpus-path", "from_path": "1", "roots": roots}
 		return c
 	}
-	return []rescorr.Case{
+	var seq []rescorr.Case
+	for _, k := range []string{"pp", "pcp", "prp", "pctp", "pop", "pgp"} {
+		c := mk("base.yang", `module base { namespace "urn:base"; prefix b;
+  container top { leaf name { type string; } leaf gone { type string; } choice kind { leaf a { type string; } container c { leaf x { type string; } } } }
+  rpc op { input { choice how { leaf fast { type empty; } } } }
+  rpc bare;
+}
+`, "ext.yang", `module ext { namespace "urn:ext"; prefix e; import base { prefix b; }
+  augment "/b:top" { leaf extra { type string; } choice more { leaf m1 { type string; } } }
+  augment "/b:top/b:kind/b:c/b:c" { choice inner { leaf y { type string; } } }
+  augment "/b:bare/b:output" { leaf res { type string; } }
+  deviation "/b:top/b:gone" { deviate not-supported; }
+  deviation "/b:top/b:name" { deviate add { default d; } }
+}
+`)
+		c.Extra = map[string]string{"label": "corpus-runs", "runs": k}
+		seq = append(seq, c)
+		if k == "pcp" || k == "pctp" {
+			c2 := mk(c.Names[1], c.Texts[1], c.Names[0], c.Texts[0])
+			c2.Extra = map[string]string{"label": "corpus-runs-path", "runs": k, "from_path": "1", "roots": "0"}
+			seq = append(seq, c2)
+		}
+	}
+	return append(seq, []rescorr.Case{
 		// files on disk: only `main` is handed over, `base` is loaded by Process from the path.  The
 		// auto-loaded module has a short-hand choice / is the target of a colliding augment / has an
 		// augment of its own / includes a submodule with all of that
@@ -431,5 +480,5 @@ func corpusCases() []rescorr.Case {
   augment "/t:l/t:c/t:m/t:m" { choice cv { container cc { leaf x { type string; } } } }
 }
 `),
-	}
+	}...)
 }
